@@ -73,9 +73,9 @@ def hashes_for(rng, scheme, n):
             continue
     if scheme in CATCHALL:
         # passwords that look a little like something else but are claimed by no real scheme
-        for pw in ("{unclosed", "{}", "{x-y}z", "{ spaced }pw", "!bang", "*star", "$notahash", "x{SSHA}", "a:b", "{é-}x", "!", "*"):
+        for pw in ("{unclosed", "{}", "{x-y}z", "{ spaced }pw", "!bang", "*star", "$notahash", "x{SSHA}", "a:b", "{é-}x", "!", "*", "", "пароль", "é", "密码 with blanks"):
             try:
-                out.append((h.hash(pw), pw, {}, "hostile-first-character"))
+                out.append((h.hash(pw), pw, {}, "hostile-first-character" if pw else "empty-password"))
             except Exception:
                 continue
     return out
@@ -145,6 +145,17 @@ def work(run, names):
                 except Exception as e:
                     run.violation(f"C17|{cname}|{s}|identify-raises|{type(e).__name__}", f"{cname}.identify raised {e}", w, rp)
                     continue
+                # the same hash handed over as UTF-8 bytes
+                try:
+                    hb = hs.encode("utf-8")
+                    gb = ctx.identify(hb)
+                    vb = ctx.verify(pw, hb, **ck) if gb == s else None
+                except Exception as e:
+                    gb, vb = f"EXC:{type(e).__name__}", None
+                run.count("bytes_attributions")
+                if gb != got or (gb == s and vb is not True):
+                    run.violation(f"C17|{short(cname)}|{s}|bytes-hash-changes-attribution|{'non-ascii' if not hs.isascii() else 'ascii'}",
+                                  f"{cname}: a {s} hash is attributed to {got!r} as text but to {gb!r} (verify -> {vb!r}) as UTF-8 bytes", dict(w, hash_bytes=hb), rp)
                 # the same through every user category the context knows (and one it does not)
                 for cat in cats:
                     if cat is None:
@@ -168,6 +179,8 @@ def work(run, names):
                         run.count("master_context_inherent_format_identity")
                         continue
                     kind = "shadowed-by-catch-all" if got in CATCHALL else f"attributed-to-{got}"
+                    if variant == "empty-password":
+                        kind = "empty-password|" + kind
                     run.violation(f"C17|{short(cname)}|{s}|{kind}", f"{cname}: a hash made by its scheme {s} ({variant}) is attributed to {got!r}", w, rp)
                     continue
                 try:
@@ -280,6 +293,7 @@ def body(run):
     import_orders(run)
     run.require("import_orders", 6)
     run.require("category_attributions", 200)
+    run.require("bytes_attributions", 500)
     names = list(contexts())
     run.extra["contexts"] = names
     order = sorted(names, key=lambda n: (n != "apps.master_context", n))
